@@ -69,6 +69,7 @@ PROPS = {
             {"kind": "verus", "unit": "mapdel"},
             {"kind": "verus", "unit": "setdel"},
             {"kind": "verus", "unit": "maplookup"},
+            {"kind": "verus", "unit": "tabhash"},
         ],
         "unreached": [
             "the remaining bulk operations that rebuild the table (clear, update_from_keys, dyn_new / to_generator towers)",
@@ -242,11 +243,12 @@ PROPS = {
                 {"harness": "try_heap::heap_harness::heap_push_pop_b8", "fn": "src/util/try_heap.rs :: TryHeap::{push, pop, sift_up, sift_down_to_bottom}, Hole (unsafe)", "thorough_only": True,
                  "bound": "at most 8 pushes followed by one pop; comparator failing (error value or violation) at any call", "timeout": 3600},
             ]},
+            {"kind": "verus", "unit": "tabhash"},
         ],
         "unreached": [
             "trysort::merge (Kani counterexamples did not replay natively: verifier imprecision); of try_sort's driver only the two natural-run loops and `collapse` are under contract (the run reversal, the insertion extension and the merge loop are not)",
             "of the sort / order-statistic natives: the argument evaluation, the collect of the elements and the calls into try_sort / TryHeap themselves (their comparator closures, the already-sorted scan, quickselect's partition and selection loop are under contract); util/try_heap.rs only by the bounded Kani companion (at most 6 elements)",
-            "derived to_str of containers, eq / hash of mappings and sets, derived hash of stacks (the derived hash of tuples, sequences and optionals is under contract: a function of the LIST of component hashes); of the derived eq / cmp closures the argument evaluation and the downcasts (`to_native!`) before the extracted statements; the compile-time halves of the add_dyn_func factories (overload lookup, arity checks); min / max (delegate to code written in the xray language)",
+            "derived to_str of containers, eq of mappings and sets, derived hash of stacks (the hash of sets and the derived hash of mappings are under contract: the XOR of the contributions of the non-empty buckets) (the derived hash of tuples, sequences and optionals is under contract: a function of the LIST of component hashes); of the derived eq / cmp closures the argument evaluation and the downcasts (`to_native!`) before the extracted statements; the compile-time halves of the add_dyn_func factories (overload lookup, arity checks); min / max (delegate to code written in the xray language)",
             "the format-specifier grammar (regex) and the numeric formatting in builtin/{int,floats,str}.rs",
         ],
         "assumptions": ["str::repeat by its documented meaning (assume_specification)",
@@ -362,7 +364,7 @@ CLAIMS = {
     "C19": {
         "engine": "vx+verus",
         "technique": "contract-based deductive verification: Verus contracts on the real text of the derived ne/lt/gt/ge/le closures, of the derived eq / cmp closures of tuples, sequences, optionals and stacks, of the derived hash closures of tuples, sequences and optionals, of try_sort's natural-run loops and `collapse`, and of FillSpecs::{get_filler,get_alignment,fillers}; bounded Kani harnesses on the unsafe insert_head and TryHeap",
-        "text": "Narrow (mechanisms): ne is proved to be the negation of eq, and lt/gt/ge/le to be the documented sign tests of cmp applied to (a, b) in that order, with the callee's error value handed on; tuple / sequence / stack eq is proved to be the conjunction of the component equalities decided at the first component that is not equal (its error value, or false), with different lengths unequal; tuple / sequence cmp is proved lexicographic (the first non-zero component comparison is the result, a proper prefix is smaller); optional eq is proved to be the element equality on two present values and presence-equality otherwise; the derived hash of a tuple / finite sequence is proved to be a function of the LIST of its component hashes (each computed by the component's own hash function, in order; the first erroring or out-of-range component hash is the result as an error value; an endless sequence has no hash) and the hash of an optional to be its element's hash (0 when absent) -- so values whose components hash equally hash equally. The run-stack decision of the merge sort is proved index- and overflow-safe and equal to the documented TimSort rule for every stack; the padding computation is proved to produce exactly (width - len) copies of the filler in the slot the alignment prescribes (centre: floor half before); the unsafe insertion step and the unsafe binary heap (push / pop with a comparator failing at any call) are checked (bounded, listed separately) to keep every element exactly once, to restore the order on success and to hand on a comparator failure.",
+        "text": "Narrow (mechanisms): ne is proved to be the negation of eq, and lt/gt/ge/le to be the documented sign tests of cmp applied to (a, b) in that order, with the callee's error value handed on; tuple / sequence / stack eq is proved to be the conjunction of the component equalities decided at the first component that is not equal (its error value, or false), with different lengths unequal; tuple / sequence cmp is proved lexicographic (the first non-zero component comparison is the result, a proper prefix is smaller); optional eq is proved to be the element equality on two present values and presence-equality otherwise; the derived hash of a tuple / finite sequence is proved to be a function of the LIST of its component hashes (each computed by the component's own hash function, in order; the first erroring or out-of-range component hash is the result as an error value; an endless sequence has no hash) and the hash of an optional to be its element's hash (0 when absent) -- so values whose components hash equally hash equally; the hash of a set / mapping is proved to be the XOR of the contributions of the buckets that hold entries, an empty bucket (left behind by a removal) contributing nothing. The run-stack decision of the merge sort is proved index- and overflow-safe and equal to the documented TimSort rule for every stack; the padding computation is proved to produce exactly (width - len) copies of the filler in the slot the alignment prescribes (centre: floor half before); the unsafe insertion step and the unsafe binary heap (push / pop with a comparator failing at any call) are checked (bounded, listed separately) to keep every element exactly once, to restore the order on success and to hand on a comparator failure.",
         "note": "The evaluator is abstracted as a deterministic function (ev / apply) and std's iterators (slice::Iter, Zip, the search budget) by their documented meaning; derived hash / to_str, mappings and sets, the format grammar, merge and the sort driver are listed as unreached.",
     },
     "C14": {
